@@ -3093,6 +3093,13 @@ class ChannelManager:
                 del connection_channels[cid]
             raise
 
+        # The link may have gone away since the response was received
+        if any(
+            channel.state != LeCreditBasedChannel.State.CONNECTED
+            for channel in channels
+        ):
+            raise InvalidStateError('channel closed while connecting')
+
         # Remember the channel by source CID and destination CID
         le_connection_channels = self.le_coc_channels.setdefault(connection.handle, {})
         for channel in channels:
